@@ -314,7 +314,12 @@ def run_reuse(desc, rec, rng):
             for si in range(desc['sequences']):
                 l2t = LatexNodes2Text()
                 steps = []
-                for _ in range(rng.randint(2, 5)):
+                # most objects live for a few calls, every fourth one for a long session (dozens of refused and granted
+                # requests on the same converter)
+                long_session = (si % 4 == 0)
+                if long_session:
+                    rec.monitor('long_sessions')
+                for _ in range(rng.randint(15, 25) if long_session else rng.randint(2, 5)):
                     base = rng.choice(bases)
                     strict = rng.random() < 0.7
                     # re-configured through the setter or, once the setter has been used, by assigning the public
